@@ -276,7 +276,7 @@ def ob_float_literal_text(r, tier, seed):
     import subprocess, tempfile, shutil, os
     W = e2.fresh_world(('compiler', 'common_defs', 'diagnostics')); tt = W.tt
     GE = tt.find_adt(['goast', 'Expr'], 'compiler'); GT = tt.find_adt(['goty', 'GoType'], 'compiler')
-    vals = [1.0, 2.0, 0.5, 3.0, 100.0, 1e21, 1.5e300, 0.1, 16777216.0, -4.0]
+    vals = [1.0, 2.0, 0.5, 3.0, 100.0, 1e21, 1.5e300, 0.1, 16777216.0, -4.0, 9223372036854775808.0, 1e19, -1e19, 4294967296.0, 1e-7, 123456789012345680.0]
     r.bounds = 'Go float literal nodes with the values %s at float32 and float64; goast::Expr::to_doc executed up to the document it builds for the literal' % vals
     r.assumptions = ['the `pretty` crate is external: RcDoc::as_string(v) is modelled as the text of Rust\'s Display for v (shortest round-trip digits, positional notation), RcDoc::text(s) as s',
                      'oracle (Go spec, constant expressions): a literal without `.`, exponent or conversion is an *integer* constant - `1 / 2` is 0 - so the printed text of a float literal must contain `.` or an exponent']
@@ -309,7 +309,7 @@ def ob_float_literal_text(r, tier, seed):
         d = ex.call('<goast::Expr>::to_doc', [Ref(h, 0), Ref(h, 1)]) if False else ex.call('go_pprint::<impl Expr>::to_doc', [Ref(h, 0), Ref(h, 1)])
         return v, t, getattr(d, 'text', None)
     res = e2.explore(r, W, entry, [])
-    bad = None
+    bad = None; wrong = None
     for p in res:
         r.cases += 1
         if p.kind != 'ok': raise Unsupported('to_doc panicked: %s' % p.value)
@@ -317,7 +317,15 @@ def ob_float_literal_text(r, tier, seed):
         r.nontrivial += 1
         if text is None: raise Unsupported('no text for the float literal document')
         if not any(c in text for c in '.eE') and bad is None: bad = (v, t, text)
-        elif len(r.samples) < 3: r.samples.append({'value': v, 'text': text})
+        else:
+            # the text, read as a Go floating-point constant and rounded to the literal's type, must be the literal's value
+            try: back = float(text)
+            except ValueError: back = None
+            import struct as _st
+            r32 = lambda x: _st.unpack('f', _st.pack('f', x))[0]
+            same = back is not None and (back == float(v) if t == 'TFloat64' else r32(back) == r32(float(v)))
+            if not same and wrong is None: wrong = (v, t, text)
+            elif same and len(r.samples) < 3: r.samples.append({'value': v, 'text': text})
     if bad:
         v, t, text = bad
         src = 'fn main() -> unit { let x: float64 = 1.0 / 2.0; string_println(float64_to_string(x)) }\n'
@@ -330,6 +338,22 @@ def ob_float_literal_text(r, tier, seed):
         ok_ = bool(line) and re.search(r'= 1 / 2\b', line[0]) is not None
         r.findings.append(Finding('float-literal-printed-as-integer-constant', 'the float literal %r (%s) is printed as `%s`, which Go reads as an integer constant' % (v, t, text), {'value': v, 'text': text}, ok_,
                                   'goml `let x: float64 = 1.0 / 2.0` emits `%s` (an integer constant division: 0)' % (line[0] if line else p_.stdout[-200:])))
+    if wrong:
+        v, t, text = wrong
+        lit = rust_f64_display(v) + ('' if any(c in rust_f64_display(v) for c in '.eE') else '.0')
+        src = 'fn main() -> unit { let x: %s = %s%s; string_println(%s_to_string(x)) }\n' % ('float64' if t == 'TFloat64' else 'float32', lit, '' if t == 'TFloat64' else 'f32', 'float64' if t == 'TFloat64' else 'float32')
+        d = tempfile.mkdtemp(prefix='vf-c10f-')
+        try:
+            open(os.path.join(d, 'main.gom'), 'w').write(src)
+            p_ = subprocess.run([build.compiler_bin(), 'run', '--dump-go', os.path.join(d, 'main.gom')], capture_output=True, text=True, timeout=60)
+        finally: shutil.rmtree(d, ignore_errors=True)
+        line = [l.strip() for l in p_.stdout.splitlines() if re.search(r'float(64|32) = ', l)]
+        m_ = re.search(r'= (\S+)$', line[0]) if line else None
+        try: emitted = float(m_.group(1)) if m_ else None
+        except ValueError: emitted = None
+        ok_ = emitted is not None and emitted != float(v)
+        r.findings.append(Finding('float-literal-value-changed', 'the float literal %r (%s) is printed as `%s`, which is another number' % (v, t, text), {'value': v, 'text': text}, ok_,
+                                  'goml `%s` emits `%s`' % (src.strip(), line[0] if line else (p_.stdout + p_.stderr)[-200:])))
 _c10_obl4 = obligations
 def obligations():
     return _c10_obl4() + [Ob('O10.9-float-literal-text', 'a float literal is printed as a Go floating-point constant', ob_float_literal_text, ('quick', 'thorough'), 2, {})]
